@@ -226,6 +226,30 @@ def vals {N : Type} : List (BE N) → Option (List (Val N))
 def isInfix (needle hay : Str) : Bool :=
   (List.range (hay.length + 1)).any (fun i => needle.isPrefixOf (hay.drop i))
 
+/-- The value a resolved element carries (`none` when it is not a value). -/
+def valOf {N : Type} : Option (BE N) → Option (Val N)
+  | some (.val v) => some v
+  | _ => none
+
+/-- `normalize-space(arg)`: the argument must be a string or Null; leading/trailing white space stripped. -/
+def nspaceVal {N : Type} : Option (Val N) → Option (Val N)
+  | some (.str s) => some (.str (strip s))
+  | some .null => some (.str [])
+  | _ => none
+
+/-- `contains(a, b)`: `str(b) in str(a)`. -/
+def containsVal {N : Type} (nm : Num N) : Option (Val N) → Option (Val N) → Option (Val N)
+  | some x, some y =>
+    match valToStr nm x, valToStr nm y with
+    | some s1, some s2 => some (.bool (isInfix s2 s1))
+    | _, _ => none
+  | _, _ => none
+
+/-- `concat(…)`: the values of the arguments joined. -/
+def concatVal {N : Type} : Option (List (Val N)) → Option (Val N)
+  | some parts => (joinStrs parts).map .str
+  | none => none
+
 mutual
 /-- First half of `evaluateLevelForTags` for one element: sub-levels and generators become values,
     operators stay. -/
@@ -244,26 +268,10 @@ def resolve {N : Type} (nm : Num N) (c : Ctx) : BE N → Option (BE N)
     match resolveList nm c l with
     | some l' => (reduce nm l').map .val
     | none => none
-  | .concatFn args =>
-    match resolveList nm c args with
-    | some vs =>
-      match vals vs with
-      | some parts => (joinStrs parts).map (fun s => .val (.str s))
-      | none => none
-    | none => none
-  | .containsFn a b =>
-    match resolve nm c a, resolve nm c b with
-    | some (.val x), some (.val y) =>
-      match valToStr nm x, valToStr nm y with
-      | some s1, some s2 => some (.val (.bool (isInfix s2 s1)))
-      | _, _ => none
-    | _, _ => none
+  | .concatFn args => (concatVal ((resolveList nm c args).bind vals)).map .val
+  | .containsFn a b => (containsVal nm (valOf (resolve nm c a)) (valOf (resolve nm c b))).map .val
   | .nspace0 => some (.val (.str (strip c.text)))
-  | .nspace1 a =>
-    match resolve nm c a with
-    | some (.val (.str s)) => some (.val (.str (strip s)))
-    | some (.val .null) => some (.val (.str []))
-    | _ => none
+  | .nspace1 a => (nspaceVal (valOf (resolve nm c a))).map .val
 def resolveList {N : Type} (nm : Num N) (c : Ctx) : List (BE N) → Option (List (BE N))
   | [] => some []
   | e :: rest =>
